@@ -526,6 +526,8 @@ func normalizeStructInto(cfg *Config, opts *options, from reflect.Value) Error {
 				}
 			case reflect.Map:
 				err = normalizeMapInto(cfg, opts, vField)
+			case reflect.Slice, reflect.Array:
+				err = normalizeArrayInto(cfg, opts, tagOpts, vField)
 			default:
 				return raiseSquashNeedsObject(cfg, opts, stField.Name, vField.Type())
 			}
@@ -537,6 +539,27 @@ func normalizeStructInto(cfg *Config, opts *options, from reflect.Value) Error {
 		if err != nil {
 			return err
 		}
+	}
+	return nil
+}
+
+// normalizeArrayInto adds the elements of the inlined slice or array from as
+// the elements of cfg itself (the counterpart of Unpack reading the elements
+// of the configuration into a slice or array field tagged inline).
+func normalizeArrayInto(cfg *Config, opts *options, tagOpts tagOptions, from reflect.Value) Error {
+	tagOpts.squash = false
+	parent := cfgSub{cfg}
+	for i, l := 0, from.Len(); i < l; i++ {
+		idx := fmt.Sprintf("%d", i)
+		if old := cfg.fields.array(); i < len(old) && !isNil(old[i]) {
+			// another inlined list or a field named by this index
+			return raiseDuplicateKey(cfg, idx)
+		}
+		tmp, err := normalizeValue(opts, tagOpts, context{parent: parent, field: idx}, from.Index(i))
+		if err != nil {
+			return err
+		}
+		cfg.fields.setAt(i, parent, tmp)
 	}
 	return nil
 }
